@@ -751,6 +751,15 @@ impl Director for RandomDirector {
             // client asked to be woken at
             let mut to = self.broker.hold_until;
             if let Some(w) = view.wakes.first().copied() {
+                if w > view.now_ms && to >= w && self.chance(0.35) {
+                    // exact coincidence: the answer becomes readable at the very instant of the
+                    // deadline the client asked to be woken at
+                    self.broker.hold_until = 0;
+                    if let Some(pkt) = self.broker.outq.pop_front() {
+                        self.ping_inbound = pkt == [0xD0, 0x00];
+                        return PendDec::AdvInject(w, pkt);
+                    }
+                }
                 if w > view.now_ms {
                     to = to.min(w);
                 } else {
@@ -955,6 +964,9 @@ impl Director for RandomDirector {
                         }
                     }
                 }
+                // exchanges the broker still holds open (QoS 2 publishes it has answered with PUBREC
+                // and not seen the PUBREL of): the client must hold them too
+                ids.extend(self.broker.in_q2.iter().copied());
                 if !ids.is_empty() {
                     let id = ids[self.rng.gen_range(0..ids.len())];
                     let id = if self.chance(0.3) && id > 1 { id - 1 } else { id };
